@@ -505,6 +505,12 @@ ssize_t __wrap_coap_socket_recv(coap_socket_t *sock, coap_packet_t *packet) {
     d.dst.to_coap(&packet->addr_info.local);
     packet->ifindex = 1;
   }
+  {
+    TraceEv e;
+    e.t = W->now; e.kind = EV_READ; e.src = d.src; e.dst = d.dst; e.index = d.index; e.dup = d.is_dup;
+    if (W->record_payloads) e.data = d.data;
+    W->trace.push_back(e);
+  }
   W->activity = true;
   return (ssize_t)n;
 }
